@@ -644,6 +644,7 @@ package larking
 //@   ensures [one-snapshot C12] loads == 1
 //@   ensures [end-after-begin C18] begins == ends
 //@   assert at "herr := hd.handler(&m.opts, stream)" [websocket-stream-carries-the-receive-limit C08] stream.maxRecv == m.opts.maxReceiveMessageSize
+//@   assert at "herr := hd.handler(&m.opts, stream)" [websocket-stream-carries-the-stats-handler C18] stream.stats == m.opts.statsHandler
 // (a close frame carries the code and at most 123 bytes of UTF-8 text; gobwas/ws crops a
 // longer reason at byte 123 wherever that falls, so larking must hand over a reason that
 // needs no cropping and ends between two characters of the message)
@@ -1215,7 +1216,7 @@ package larking
 //@   returns (err)
 //@   requires s != nil && s.method != nil && AllSingular(s.method.resp) && impl(v, "proto.Message")
 //@   count payloadEvents `sh.HandleRPC(`
-//@   ensures [one-out-payload-event-per-message C18] err == nil && gf(s, "statson") == 1 ==> payloadEvents == 1
+//@   ensures [one-out-payload-event-per-message C18] err == nil && s.stats != nil ==> payloadEvents == 1
 //@   ensures [no-event-without-message C18] err != nil ==> payloadEvents == 0
 //@   witness verifWitnessWSPayloadStats for payload-event
 //@   loop 1 invariant -1 <= rangeindex && rangeindex < len(s.method.resp) && AllSingular(s.method.resp) && cur != nil
@@ -1223,6 +1224,7 @@ package larking
 // function that writes the field, is checked to set it so where it creates the
 // stream; no message larger than it reaches the decoder, C08)
 //@ immutable F$streamWS.maxRecv except (*Mux).serveHTTP
+//@ immutable F$streamWS.stats except (*Mux).serveHTTP
 // (a WebSocket has no half-close: the client ends its message sequence with a close frame of
 // status 1000, which wsutil.ReadClientData reports as a wsutil.ClosedError; the handler must see
 // that as the clean end of the stream, io.EOF, and every other read failure as an error, C06)
@@ -1237,8 +1239,9 @@ package larking
 // (assumed: fewer than 2^62 receive calls on one stream, so that the call counter does not wrap)
 //@   requires 0 <= s.recvN && s.recvN < 4611686018427387904
 //@   count payloadEvents `sh.HandleRPC(`
-//@   ensures [one-in-payload-event-per-message C18] err == nil && old(s.method.hasBody) && gf(s, "statson") == 1 ==> payloadEvents == 1
-//@   ensures [no-event-without-message C18] err != nil ==> payloadEvents == 0
+//@   ensures [one-in-payload-event-per-message C18] err == nil && old(s.method.hasBody) && s.stats != nil ==> payloadEvents == 1
+//@   ensures [at-most-one-in-payload-event C18] payloadEvents <= 1
+//@   assert atcall `sh.HandleRPC(` [in-payload-event-carries-the-decoded-message C18] ptr(pay(arg1), "stats.InPayload").Length == len(b)
 //@   witness verifWitnessWSPayloadStats for payload-event
 //@   ensures [no-phantom-message-without-a-body C06] !old(s.method.hasBody) && old(s.recvN) >= 1 ==> err == io.EOF
 //@   witness verifWitnessWSNoBody for no-phantom-message
